@@ -44,6 +44,7 @@ class _Child:
             # ---- child
             try:
                 os.close(r)
+                os.setsid()          # own process group: worker processes started by the code under test die with this child
                 signal.signal(signal.SIGALRM, signal.SIG_IGN)
                 if mem:
                     try:
@@ -109,9 +110,12 @@ class _Child:
             except OSError:
                 pass
         try:
-            os.kill(self.pid, signal.SIGKILL)
+            os.killpg(self.pid, signal.SIGKILL)
         except OSError:
-            pass
+            try:
+                os.kill(self.pid, signal.SIGKILL)
+            except OSError:
+                pass
         try:
             os.waitpid(self.pid, 0)
         except OSError:
@@ -123,7 +127,7 @@ class _Child:
         return stack
 
 
-def run_cases(fn, cases, *, timeout=20.0, nproc=16, mem=3 << 30, slice_size=None, timeout_fn=None, progress=None):
+def run_cases(fn, cases, *, timeout=20.0, nproc=16, mem=3 << 30, slice_size=None, timeout_fn=None, progress=None, max_hangs=12):
     """Apply fn(case) to every case in forked children. Returns list[Outcome] aligned with cases.
     fn must return something picklable.  timeout is per case (or timeout_fn(case))."""
     n = len(cases)
@@ -137,8 +141,16 @@ def run_cases(fn, cases, *, timeout=20.0, nproc=16, mem=3 << 30, slice_size=None
     live = {}
     tmpd = tempfile.mkdtemp(prefix="sbx-", dir="/dev/shm" if os.path.isdir("/dev/shm") else None)
     nstack = 0
+    nhang = 0
     try:
         while pending or live:
+            if nhang >= max_hangs and pending:
+                # a systematic hang (e.g. a deadlock introduced by a change): do not spend the time limit on every remaining case
+                for idxs in pending:
+                    for i in idxs:
+                        if out[i] is None:
+                            out[i] = Outcome("skipped", None, "not run: too many hangs before it", 0.0)
+                pending = []
             while pending and len(live) < nproc:
                 idxs = pending.pop()
                 nstack += 1
@@ -186,6 +198,7 @@ def run_cases(fn, cases, *, timeout=20.0, nproc=16, mem=3 << 30, slice_size=None
                         del live[fd]
                         cur = ch.current
                         out[cur] = Outcome("hang", None, stack, now - ch.started)
+                        nhang += 1
                         if progress:
                             progress(cur, out[cur])
                         rest = [i for i in ch.idxs if i not in ch.done and i != cur]
